@@ -197,6 +197,7 @@ void shared_block(vh::Case& c, const Field& f, const std::vector<Z>& as, const s
   gmp_elem_block<Shared_multi_field_element>(R, f.P, f.primes, as, bs, capped(subproducts<Z>(f.primes, c.rng, 12), 24, 2, c.rng));
   finish_block(c, R, desc, salt);
 }
+void ops_eval_gmp(Rep& R, Multi_field_operators& op, const Field& f, const std::vector<Z>& as, const std::vector<Z>& bs, const std::vector<Z>& cs, const std::vector<Z>& Qs);
 void ops_block_gmp(vh::Case& c, const Field& f, const std::vector<Z>& as, const std::vector<Z>& bs, const std::vector<Z>& cs, const std::string& kind, uint64_t salt) {
   std::string desc = kind + " class=" + kOps + " " + f.d + " salt=" + std::to_string(salt);
   c.log(desc);
@@ -205,6 +206,14 @@ void ops_block_gmp(vh::Case& c, const Field& f, const std::vector<Z>& as, const 
   Multi_field_operators op;
   op.set_characteristic((int)f.g.lo, (int)f.g.hi);
   std::vector<Z> Qs = capped(subproducts<Z>(f.primes, c.rng, 12), 24, 2, c.rng);
+  ops_eval_gmp(R, op, f, as, bs, cs, Qs);
+  Multi_field_operators op2((int)f.g.lo, (int)f.g.hi), cp(op), as2;
+  as2 = op;
+  Z g1 = op2.get_characteristic(), g2 = cp.get_characteristic(), g3 = as2.get_characteristic();
+  C10_CHECKV(R, Z, K_CHARACTERISTIC, g1 == f.P && g2 == f.P && g3 == f.P, "characteristic", C10_NIL(Z), C10_NIL(Z), C10_NIL(Z), &g1, &f.P, "constructor_copy_assign");
+  finish_block(c, R, desc, salt);
+}
+void ops_eval_gmp(Rep& R, Multi_field_operators& op, const Field& f, const std::vector<Z>& as, const std::vector<Z>& bs, const std::vector<Z>& cs, const std::vector<Z>& Qs) {
   const Z nolimit = 0;
   for (const Z& a : as) {
     ops_unary<Multi_field_operators, Z, Z>(R, op, f.P, f.primes, a, Qs, /*inverse_of_unreduced=*/false);
@@ -215,20 +224,20 @@ void ops_block_gmp(vh::Case& c, const Field& f, const std::vector<Z>& as, const 
     }
   }
   ops_constants<Multi_field_operators, Z>(R, op, f.P, f.primes, Qs);
-  Multi_field_operators op2((int)f.g.lo, (int)f.g.hi), cp(op), as2;
-  as2 = op;
-  Z g1 = op2.get_characteristic(), g2 = cp.get_characteristic(), g3 = as2.get_characteristic();
-  C10_CHECKV(R, Z, K_CHARACTERISTIC, g1 == f.P && g2 == f.P && g3 == f.P, "characteristic", C10_NIL(Z), C10_NIL(Z), C10_NIL(Z), &g1, &f.P, "constructor_copy_assign");
-  finish_block(c, R, desc, salt);
 }
+void coh_eval(Rep& R, CohMulti& m, const Field& f, const std::vector<Z>& xs, const std::vector<Z>& ys, const std::vector<Z>& ws, const std::vector<Z>& Qs);
 void coh_block(vh::Case& c, const Field& f, const std::vector<Z>& xs, const std::vector<Z>& ys, const std::vector<Z>& ws, const std::string& kind, uint64_t salt) {
   std::string desc = kind + " class=" + kCoh + " " + f.d + " salt=" + std::to_string(salt);
   c.log(desc);
   Rep R(c, kCoh, f.d);
   count_field(c, kCoh, f);
-  CohMulti m;   // a fresh object: init() is only ever called once per object by the cohomology engine
+  CohMulti m;   // a fresh object (re-initialisation of a live object: see state_case)
   m.init((int)f.g.lo, (int)f.g.hi);
   std::vector<Z> Qs = capped(subproducts<Z>(f.primes, c.rng, 12), 24, 2, c.rng);
+  coh_eval(R, m, f, xs, ys, ws, Qs);
+  finish_block(c, R, desc, salt);
+}
+void coh_eval(Rep& R, CohMulti& m, const Field& f, const std::vector<Z>& xs, const std::vector<Z>& ys, const std::vector<Z>& ws, const std::vector<Z>& Qs) {
   for (const Z& x : xs) {
     // partial inverse for every sub-product, also when the range has one prime (T = 1 or p)
     for (const Z& Q : Qs) {
@@ -254,7 +263,6 @@ void coh_block(vh::Case& c, const Field& f, const std::vector<Z>& xs, const std:
     const char* why = partial_identity_wrong<Z>(f.primes, f.P, Q, v);
     C10_CHECKV(R, Z, K_PARTIAL_IDENTITY, !*why, "partial_identity", &Q, C10_NIL(Z), C10_NIL(Z), &v, C10_NIL(Z), "multi", nullptr, nullptr, nullptr, nullptr, nullptr, why);
   }
-  finish_block(c, R, desc, salt);
 }
 
 // ---------------------------------------------------------------------------------------- exhaustive: tiny products
@@ -394,8 +402,127 @@ void refuse_case(vh::Case& c) {
   c.nontrivial(vh::hash_str(desc));
 }
 
+// ---------------------------------------------------------------------------------------- object state
+// scenario 0: a REFUSED range on an object that already has a field (",refused_on_live_object"); 1: valid -> valid re-initialisation
+// (also of the cohomology class); 2 (operator class): move / swap / assignment followed by a use of the moved-to object.
+void state_case(vh::Case& c) {
+  static const Range good[] = {{2, 3}, {3, 5}, {2, 7}, {5, 13}, {2, 13}, {11, 11}, {2, 31}, {7, 10}, {90, 100}, {2, 61}, {101, 131}, {65519, 65521}, {2, 2}};
+  static const Range bad[] = {{8, 10}, {14, 16}, {24, 28}, {4, 4}, {9, 9}, {0, 1}, {1, 1}, {7, 5}, {90, 96}, {0, 0}, {114, 126}, {25, 25}, {1328, 1360}};
+  vh::Rng& r = c.rng;
+  const int scenario = (int)(c.k % 3);
+  // class: 0 operators, 1 shared element, 2 cohomology (re-initialisation only: it never refuses, see the known finding)
+  int cls = scenario == 2 ? 0 : scenario == 1 ? (int)((c.k / 3) % 3) : (int)((c.k / 3) % 2);
+  const Field f1 = make_field(good[r.below(13)]);
+  Field f2; do { f2 = make_field(good[r.below(13)]); } while (f2.P == f1.P);
+  const Range gb = bad[r.below(13)];
+  const char* const kScen[] = {"refused_on_live_object", "reinitialisation", "move_swap_assign"};
+  auto rs = [](const Range& g) { return "[" + std::to_string(g.lo) + "," + std::to_string(g.hi) + "]"; };
+  const char* cn = cls == 0 ? kOps : cls == 1 ? kShared : kCoh;
+  std::string desc = std::string("state scenario=") + kScen[scenario] + " class=" + cn + " range1=" + rs(f1.g) + (scenario == 0 ? " refused=" + rs(gb) : " range2=" + rs(f2.g));
+  c.log(desc);
+  Rep R(c, cn, "range1=" + rs(f1.g) + (scenario == 0 ? " refused=" + rs(gb) : " range2=" + rs(f2.g)));
+  c.count(std::string("class.") + cn);
+  c.count(std::string("state.scenario.") + kScen[scenario]);
+  Multi_field_operators op;
+  CohMulti m;
+  auto blk_in = [&](Multi_field_operators* o, const Field& f) {
+    c.log("block in " + rs(f.g));
+    std::vector<Z> red = capped(reduced_values(f.P, f.primes, r, 4), 12, 7, r);
+    std::sort(red.begin(), red.end());
+    std::vector<Z> Qs = capped(subproducts<Z>(f.primes, r, 4), 8, 2, r);
+    if (o) ops_eval_gmp(R, *o, f, red, red, red, Qs);
+    else if (cls == 1) gmp_elem_block<Shared_multi_field_element>(R, f.P, f.primes, red, red, Qs);
+    else coh_eval(R, m, f, red, red, red, Qs);
+  };
+  if (scenario == 2) {
+    R.sfx = ",after=move_swap_assign";
+    ops_move_swap_assign<Multi_field_operators>(f1, f2, [&](Multi_field_operators& o, const Field& f) { c.log("set_characteristic " + rs(f.g)); o.set_characteristic((int)f.g.lo, (int)f.g.hi); },
+                                                [&](Multi_field_operators& o, const Field& f) { blk_in(&o, f); });
+    finish_block(c, R, desc, r.next());
+    return;
+  }
+  auto init = [&](const Range& g) {
+    c.log("init " + rs(g));
+    if (cls == 0) op.set_characteristic((int)g.lo, (int)g.hi); else if (cls == 1) Shared_multi_field_element::initialize((unsigned)g.lo, (unsigned)g.hi); else m.init((int)g.lo, (int)g.hi);
+  };
+  auto blk = [&](const Field& f) { blk_in(cls == 0 ? &op : nullptr, f); };
+  init(f1.g);
+  blk(f1);
+  if (scenario == 1) {
+    R.sfx = ",after=reinitialisation";
+    init(f2.g); blk(f2);
+    init(f1.g); blk(f1);
+  } else {
+    must_refuse(R, "second initialisation with " + rs(gb), "live_object", [&] { init(gb); });
+    R.sfx = ",refused_on_live_object";
+    Z got = cls == 0 ? op.get_characteristic() : Shared_multi_field_element::get_characteristic();
+    C10_CHECKV(R, Z, K_CHARACTERISTIC, got == f1.P, "characteristic", C10_NIL(Z), C10_NIL(Z), C10_NIL(Z), &got, &f1.P, "announced_after_refusal");
+    if (got != f1.P) return;
+    blk(f1);
+  }
+  finish_block(c, R, desc, r.next());
+}
+
+// ---------------------------------------------------------------------------------------- range end points
+// "arbitrary ranges for the GMP ones": negative / zero minimum (int interfaces), end points around INT_MAX, 2^31 and 2^32 (unsigned
+// interface).  Every initialisation first runs in a forked child under a CPU watchdog: one that never returns is ONE violation.
+struct Bound { int cls; long lo, hi; };   // cls 0 operators.set_characteristic, 1 operators constructor, 2 shared element, 3 cohomology, 4 compile-time element
+void bounds_case(vh::Case& c) {
+  static const Bound table[] = {
+      {0, -5, 100}, {0, 0, 2}, {0, INT_MAX - 18, INT_MAX}, {0, -1, 2}, {0, INT_MIN, 3}, {0, 1, 7},
+      {1, -5, 100}, {1, 0, 2}, {1, INT_MAX - 18, INT_MAX},
+      {2, 0, 2}, {2, INT_MAX - 18, INT_MAX}, {2, 4294967280L, 4294967294L}, {2, 2147483659L, 2147483659L}, {2, 4294967291L, 4294967295L}, {2, 2147483640L, 2147483660L}, {2, 1, 7},
+      {3, -5, 100}, {3, 0, 2}, {3, INT_MAX - 18, INT_MAX}, {3, -1, 2},
+      {4, 0, 2}, {4, INT_MAX - 18, INT_MAX}};
+  const int kN = (int)(sizeof table / sizeof table[0]);
+  const Bound& b = table[c.k % kN];
+  vh::Rng& r = c.rng;
+  Field f = make_field({b.lo, b.hi});
+  const char* cn = b.cls <= 1 ? kOps : b.cls == 2 ? kShared : b.cls == 3 ? kCoh : kStatic;
+  uint64_t salt = r.next();
+  std::string desc = std::string("range_bounds class=") + cn + " form=" + std::to_string(b.cls) + " " + f.d + " salt=" + std::to_string(salt);
+  c.log(desc);
+  Rep R(c, cn, f.d);
+  R.sfx = b.lo < 2 ? ",minimum=below_2" : b.hi > (long)INT_MAX ? ",maximum=above_2^31" : b.hi == (long)INT_MAX ? ",maximum=INT_MAX" : "";
+  count_field(c, cn, f);
+  c.count(b.lo < 2 ? "bounds.minimum_below_2" : b.hi > (long)INT_MAX ? "bounds.range_end_above_2p31" : "bounds.range_end_INT_MAX");
+  std::vector<Z> red = capped(reduced_values(f.P, f.primes, r, 6), 14, 7, r);
+  std::vector<Z> Qs = capped(subproducts<Z>(f.primes, r, 6), 10, 2, r);
+  const std::string call = std::string(cn) + " with [" + std::to_string(b.lo) + "," + std::to_string(b.hi) + "]";
+  Z got;
+  if (b.cls <= 1) {
+    Multi_field_operators op;
+    if (!guarded_init(R, 4, b.cls == 0 ? "set_characteristic" : "constructor", call, [&] {
+          if (b.cls == 0) op.set_characteristic((int)b.lo, (int)b.hi); else { Multi_field_operators o2((int)b.lo, (int)b.hi); op = o2; } })) return;
+    got = op.get_characteristic();
+    C10_CHECKV(R, Z, K_CHARACTERISTIC, got == f.P, "characteristic", C10_NIL(Z), C10_NIL(Z), C10_NIL(Z), &got, &f.P, "product_of_the_primes_of_the_range");
+    if (got != f.P) return;
+    ops_eval_gmp(R, op, f, red, red, red, Qs);
+  } else if (b.cls == 2) {
+    if (!guarded_init(R, 4, "initialize", call, [&] { Shared_multi_field_element::initialize((unsigned)b.lo, (unsigned)b.hi); })) return;
+    got = Shared_multi_field_element::get_characteristic();
+    C10_CHECKV(R, Z, K_CHARACTERISTIC, got == f.P, "characteristic", C10_NIL(Z), C10_NIL(Z), C10_NIL(Z), &got, &f.P, "product_of_the_primes_of_the_range");
+    if (got != f.P) return;
+    gmp_elem_block<Shared_multi_field_element>(R, f.P, f.primes, red, red, Qs);
+  } else if (b.cls == 3) {
+    CohMulti m;
+    if (!guarded_init(R, 4, "init", call, [&] { m.init((int)b.lo, (int)b.hi); })) return;
+    got = m.characteristic();
+    C10_CHECKV(R, Z, K_CHARACTERISTIC, got == f.P, "characteristic", C10_NIL(Z), C10_NIL(Z), C10_NIL(Z), &got, &f.P, "product_of_the_primes_of_the_range");
+    if (got != f.P) return;
+    coh_eval(R, m, f, red, red, red, Qs);
+  } else {
+    // compile-time ranges: only those whose static initialisation is known to return can be linked into this binary
+    if (b.lo == 0) gmp_elem_block<Multi_field_element<0, 2> >(R, f.P, f.primes, red, red, Qs);
+    else gmp_elem_block<Multi_field_element<2147483629u, 2147483647u> >(R, f.P, f.primes, red, red, Qs);
+  }
+  finish_block(c, R, desc, salt);
+}
+
 }  // namespace
 
+VH_CONFIG("mg_state", state_case);
+VH_CONFIG("mg_bounds", bounds_case);
 VH_CONFIG("mg_exhaustive", exh_case);
 VH_CONFIG("mg_fixed", fixed_case);
 VH_CONFIG("mg_random", random_case);
